@@ -108,7 +108,8 @@ class C17(Property):
     rule = ('per function: rate constants log-uniform in [0.05, 20], concentrations log-uniform in [0.01, 10] (initial product 0 in 20 % of '
             'the cases, otherwise positive), t = 0 in 15 % of the cases else log-uniform in [1e-3, 5]; major/minor at least 5 % apart for '
             'binary_irrev; exponents bounded by 60 (no overflow); binary_irrev_cstr: 25 % of the cases start above the steady state '
-            '(known nan region). 22 % of the cases are in the LATE/FAST regime: rate*t log-uniform in [50, 1e5], concentrations rescaled by '
+            '(known nan region). For every case the oracle re-evaluates with t and two other parameters as numpy scalar / 0-d / 1-d / '
+            'int64 array / Python int / broadcasting column-vs-row, and all parameters as Fractions (math backend). 22 % of the cases are in the LATE/FAST regime: rate*t log-uniform in [50, 1e5], concentrations rescaled by '
             'u in [1e-8, 10] and second-order constants by 1/u. Each case is evaluated under one of numpy/math/sympy (cycled). A case is non-trivial when it is a '
             'distinct JSON value.')
     assumptions = ('Float instantiation of the generated model vs the Python float evaluation: relative tolerance 1e-9 of '
@@ -121,6 +122,11 @@ class C17(Property):
                    'domain, not a finding (coordinator triage); kb + kf*major != 0; positive parameters',
                    'binary_irrev_cstr is only claimed below the steady state (r < r_ss): above it the real code returns nan (known finding)')
     clauses_without_theorem = (
+        'argument TYPES and input immutability: the Lean functions are pure functions of numbers; that a parameter may be a numpy '
+        'array (0-d, 1-d, broadcasting), a numpy scalar, an integer or a Fraction, that the result is then element-wise the scalar '
+        'result, that the caller\'s arrays are left unchanged and that a second call gives the same result is decided by the oracle '
+        'only (t and two further parameters per case, every form). `x op= e` and `x = x op e` have the same pure translation; in-place '
+        'updates of parameters / aliased names are flagged by the translator (`…InPlace`, @skipped of the *_sig_guard theorems).',
         '"can be evaluated with each numeric or symbolic backend they advertise and give the same values": outside the Lean model by '
         'construction - the translator maps be.f / math.f / np.f / get_backend(x).f to the same class method, so no theorem can '
         'distinguish backends. Decided by the oracle only: every function is called at every generated point with backend="numpy", '
@@ -393,6 +399,10 @@ class C17(Property):
                         if not all(close(x, y, 1e-9, 1e-9 * scale) for x, y in zip(vals[be], want)):
                             return ('binary_irrev_cstr(t=%r, %r, backend=%s) = %r long after the transient (fv*t = %.3g), steady state is %r'
                                     % (t, a, be, vals[be], float(fv_ * t), want))
+        # (1d) argument TYPES and input immutability (numpy arrays of every shape, numpy scalars, int dtype, Fractions)
+        f = self._argument_types(fn, c, t, a, scale)
+        if f is not None:
+            return f
         # (1a) calling conventions: optional arguments by position / by keyword / omitted, in the DOCUMENTED order
         f = self._conventions(fn, c, t, a, scale)
         if f is not None:
@@ -495,6 +505,138 @@ class C17(Property):
                 return ('%s = %r differs from %s = %r: the documented signature is %s(%s)'
                         % (show(args, kwargs), got, show([], exp), want, fn,
                            ', '.join(n_ if d is REQUIRED else '%s=%r' % (n_, d) for n_, d in sig)))
+        return None
+
+    def _argument_types(self, fn, c, t, a, scale):
+        """Every parameter (not only t) may be a numpy array (0-d, 1-d, broadcasting 2-d), a numpy scalar, an integer (dtype) or a
+        Fraction: the result must be, element by element, the result of the call with plain Python floats; the caller's arrays must
+        be unchanged bit for bit afterwards and a second call on the same arrays must give the same result.
+        Per case: t and two further parameters (chosen from the case content), all forms."""
+        import json, random
+        import numpy as np
+        from chempy.kinetics import integrated as I
+        func = getattr(I, fn)
+        nres = FUNCS[fn][1]
+        names = [n_ for n_, _ in SIGNATURES[fn] if n_ != 'backend']
+        base = {n_: float(a.get(n_, 1.0)) for n_ in names if n_ != 't'}
+        base['t'] = float(t)
+        rnd = random.Random(json.dumps([fn, t, sorted(a.items())], default=str))
+        others = [n_ for n_ in names if n_ != 't']
+        chosen = ['t'] + rnd.sample(others, min(2, len(others)))
+
+        def call(kw):
+            with np.errstate(all='ignore'):
+                r = func(**kw)
+            return list(r) if nres > 1 else [r]
+
+        def scalar(**over):
+            kw = dict(base)
+            kw.update({k_: float(v) for k_, v in over.items()})
+            try:
+                return [float(x) for x in call(kw)]
+            except ZeroDivisionError:
+                return None
+
+        def show(kw):
+            return '%s(%s)' % (fn, ', '.join('%s=%r' % (k_, (v.tolist() if isinstance(v, np.ndarray) else v)) for k_, v in kw.items()))
+
+        def run(kw, expect, what):
+            """expect: function index-tuple -> scalar reference (list over results) or None"""
+            arrays = {k_: v for k_, v in kw.items() if isinstance(v, np.ndarray)}
+            before = {k_: (v.dtype, v.shape, v.tobytes()) for k_, v in arrays.items()}
+            try:
+                r1 = call(kw)
+            except Exception as e:
+                return '%s [%s] raised %s: %s' % (show(kw), what, exc_name(e), str(e)[:100])
+            for k_, v in arrays.items():
+                if (v.dtype, v.shape, v.tobytes()) != before[k_]:
+                    return '%s [%s] MODIFIED the caller\'s array %s: now %r' % (show({**kw, k_: np.frombuffer(before[k_][2], dtype=before[k_][0]).reshape(before[k_][1])}), what, k_, v.tolist())
+            try:
+                r2 = call(kw)
+            except Exception as e:
+                return '%s [%s] second call raised %s' % (show(kw), what, exc_name(e))
+            for x1, x2 in zip(r1, r2):
+                if np.asarray(x1, dtype=float).tobytes() != np.asarray(x2, dtype=float).tobytes():
+                    return '%s [%s]: second call on the same arguments gives %r, first gave %r' % (show(kw), what, np.asarray(x2).tolist(), np.asarray(x1).tolist())
+            shape = np.broadcast(*[np.asarray(v) for v in kw.values()]).shape
+            for i, x in enumerate(r1):
+                x = np.asarray(x, dtype=float)
+                if x.shape != shape:
+                    if x.shape == () and shape == ():
+                        pass
+                    else:
+                        try:
+                            x = np.broadcast_to(x, shape)
+                        except ValueError:
+                            return '%s [%s]: result %d has shape %r, arguments broadcast to %r' % (show(kw), what, i, x.shape, shape)
+                for idx in np.ndindex(*shape):
+                    ref = expect(idx)
+                    if ref is None:
+                        continue
+                    got = float(x[idx])
+                    if not close(got, ref[i], 1e-11, 1e-11 * scale):
+                        return ('%s [%s]: element %r of result %d is %r, the call with plain floats gives %r'
+                                % (show(kw), what, idx, i, got, ref[i]))
+            return None
+
+        for q in chosen:
+            v = base[q]
+            vec = [v, v * 0.5, v * 0.75]
+            refs = [scalar(**{q: x}) for x in vec]
+            for form, val, exp in (
+                ('numpy scalar', np.float64(v), lambda idx: refs[0]),
+                ('0-d array', np.array(v), lambda idx: refs[0]),
+                ('1-d array', np.array(vec), lambda idx: refs[idx[0]]),
+            ):
+                kw = dict(base)
+                kw[q] = val
+                f = run(kw, exp, '%s as %s' % (q, form))
+                if f is not None:
+                    return f
+            ints = [1, 2, 3]
+            irefs = [scalar(**{q: x}) for x in ints]
+            kw = dict(base)
+            kw[q] = np.array(ints)
+            f = run(kw, lambda idx: irefs[idx[0]], '%s as int64 array' % q)
+            if f is not None:
+                return f
+            kw = dict(base)
+            kw[q] = 2
+            f = run(kw, lambda idx: irefs[1], '%s as Python int' % q)
+            if f is not None:
+                return f
+            # broadcasting: a column of times against a row of parameter values (or, for q = t, against another parameter)
+            p2 = q if q != 't' else chosen[1]
+            v2 = base[p2]
+            row = [v2, v2 * 0.5]
+            col = [base['t'], base['t'] * 0.5, base['t'] * 1.5]
+            grid = {(i, j): scalar(**{'t': col[i], p2: row[j]}) for i in range(3) for j in range(2)}
+            kw = dict(base)
+            kw['t'] = np.array(col)[:, None]
+            kw[p2] = np.array(row)
+            f = run(kw, lambda idx: grid[idx], 't as column (3,1) against %s as row (2,)' % p2)
+            if f is not None:
+                return f
+        # Fractions: exact rationals are accepted by the math backend (and by dimerization_irrev, which has no backend)
+        from fractions import Fraction as Fr
+        kw = {k_: Fr(v) for k_, v in base.items()}
+        if fn != 'dimerization_irrev':
+            kw['backend'] = 'math'
+        ref = scalar()
+        try:
+            r = [float(x) for x in call(kw)]
+        except ZeroDivisionError:
+            r = None
+        except ValueError as e:
+            r = None if 'math domain error' in str(e) else 'raised ValueError: %s' % e
+        except OverflowError:
+            r = None
+        except Exception as e:
+            r = 'raised %s: %s' % (exc_name(e), str(e)[:80])
+        if isinstance(r, str):
+            return '%s with Fraction arguments (backend math) %s' % (fn, r)
+        if r is not None and ref is not None and not all(close(x, y, 1e-9, 1e-9 * scale) for x, y in zip(r, ref)):
+            return '%s with Fraction arguments %r gives %r, with floats %r' % (fn, {k_: str(v) for k_, v in kw.items()}, r, ref)
         return None
 
     def _oracle_exact(self, c):
